@@ -1,4 +1,5 @@
 import MobiusModel.WireLemmas
+import MobiusModel.WireLemmas2
 import MobiusModel.Drain
 import MobiusModel.Generated.Consts
 import MobiusModel.Generated.Readers
@@ -70,6 +71,23 @@ theorem stream_selfdelimiting (ts : List Transaction) (h : ∀ t ∈ ts, t.WFdec
       simp at *; omega
   exact this ts h
 
+/-- User record (field 300): decoding the emitted bytes yields the original record, consuming all of them;
+    the name-length prefix equals the number of name bytes. -/
+theorem user_decode_encode (u : User) (h : u.WF) :
+    User.decode u.encode = .ok (u, u.encode.length) ∧ rd16 (u.encode.drop 6) = (u.encode.drop 8).length := by
+  refine ⟨by rw [User.decode_encode' u h, User.encode_length], ?_⟩
+  have d6 : u.encode.drop 6 = be16 u.name.length ++ u.name := by simp [User.encode, be16]
+  have d8 : u.encode.drop 8 = u.name := by simp [User.encode, be16]
+  rw [d6, d8, rd16_be16_append]
+  have := h.2.2.2
+  omega
+
+/-- File path (field 202): decoding an encoded path yields the original items, for every list of
+    items whose names fit the one-byte length prefix. -/
+theorem path_decode_encode (items : List Bytes) (h : ∀ it ∈ items, it.length < 256) (hn : items.length < 65536) :
+    pathDecode (pathEncode items) = .ok items :=
+  pathDecode_encode items h hn
+
 /-- The emitted bytes do not depend on the sizes of the buffers the encoder is drained through,
     and emission terminates: for *every* script of buffer sizes ≥ 1 with at least |bytes|+1
     entries the drained output is exactly the layout and the last call reports EOF. -/
@@ -118,6 +136,8 @@ example : (⟨101, [1, 2, 3]⟩ : Field).WF := by decide
 example : Field.decode (Field.encode ⟨101, [1, 2, 3]⟩) = .ok (⟨101, [1, 2, 3]⟩, 7) := by decide
 example : Transaction.decode (Transaction.encode ⟨0, 1, 107, 7, 0, [⟨105, [0x98]⟩, ⟨106, []⟩]⟩)
     = .ok ⟨0, 1, 107, 7, 0, [⟨105, [0x98]⟩, ⟨106, []⟩]⟩ := by decide +kernel
+example : pathDecode (pathEncode [[100, 105, 114], [115, 117, 98]]) = .ok [[100, 105, 114], [115, 117, 98]] := by decide
+example : User.decode (User.encode ⟨1, 2, 3, [65, 66]⟩) = .ok (⟨1, 2, 3, [65, 66]⟩, 10) := by decide
 example : drain [1, 2, 3, 4, 5] [2, 1, 1, 7, 1, 1] 0 = ⟨[1, 2, 3, 4, 5], 5, true⟩ := by decide
 
 end Mobius.C01
